@@ -127,6 +127,8 @@ def main(tier):
     for combined in (True, False):
         for claim in (True, False):
             run.add(DecodeTask('C15', combined, claim))
+    from contracts.decoder_c import InitDumpTask
+    run.add(InitDumpTask('C15'))
     from props.C15_json import FromJsonTask, ToJsonTask
     run.add(FromJsonTask(), ToJsonTask())
     defs = [x for x in db().defs if db().selectable(x)]
